@@ -270,7 +270,15 @@ func areaInstance(r *Rng, n int, dir string) (*AreaOut, error) {
 				return nil
 			}
 		}
-		sy, err := newSyncer(env, st, syncerOpts{Native: native, DupHack: hack, Padding: pad, SyncerOpt: syncer.Options{ReceiveOnly: recvOnly, Hooks: hk}, Mod: func(c *configT, lc *lmdbCfgT) {
+		// configured instance names with characters outside the safe set: names and metadata carry the sanitised form
+		instCfg := pick(r, []string{"a", "a", "a_b", "n__x_", "h.example.com"})
+		instSafe := []byte(instCfg)
+		for j, ch := range instSafe {
+			if !(ch >= 'a' && ch <= 'z' || ch >= 'A' && ch <= 'Z' || ch >= '0' && ch <= '9' || ch == '-') {
+				instSafe[j] = '-'
+			}
+		}
+		sy, err := newSyncer(env, st, syncerOpts{Native: native, DupHack: hack, Padding: pad, Instance: instCfg, SyncerOpt: syncer.Options{ReceiveOnly: recvOnly, Hooks: hk}, Mod: func(c *configT, lc *lmdbCfgT) {
 			if sweep {
 				c.Sweeper = config.Sweeper{Enabled: true, RetentionDays: 1}
 			}
@@ -416,9 +424,9 @@ func areaInstance(r *Rng, n int, dir string) (*AreaOut, error) {
 				out.OracleN++
 				ni, perr := snapshot.ParseName(names[len(names)-1])
 				wantName := clock + uint64(nameShift)
-				if sn.Meta.DatabaseName != dbName || sn.Meta.InstanceID != "a" || sn.Meta.TimestampNano != clock || perr != nil || uint64(ni.Timestamp.UnixNano()) != wantName || ni.InstanceID != "a" || ni.SyncerName != dbName {
+				if sn.Meta.DatabaseName != dbName || sn.Meta.InstanceID != string(instSafe) || sn.Meta.TimestampNano != clock || perr != nil || uint64(ni.Timestamp.UnixNano()) != wantName || ni.InstanceID != string(instSafe) || ni.SyncerName != dbName {
 					for _, pid := range []string{"C06", "C15"} {
-						out.Oracle = append(out.Oracle, OracleFailure{pid, "meta", fmt.Sprintf("name %s meta %+v do not carry database/instance/time of the image (image taken at %d; name timestamp expected %d, a hook moved it by %v)", names[len(names)-1], sn.Meta, clock, wantName, nameShift), nil})
+						out.Oracle = append(out.Oracle, OracleFailure{pid, "meta", fmt.Sprintf("name %s meta %+v do not carry database/instance/time of the image (image taken at %d; name timestamp expected %d, a hook moved it by %v; configured instance %q = %q sanitised; parse error %v)", names[len(names)-1], sn.Meta, clock, wantName, nameShift, instCfg, instSafe, perr), nil})
 					}
 				}
 				for _, f := range dumpOracle(native, after, up) {
@@ -516,6 +524,18 @@ func areaInstance(r *Rng, n int, dir string) (*AreaOut, error) {
 				}
 				d.Entries = append(d.Entries, e)
 			}
+			if len(d.Entries) > 0 && name != "dup" && r.Chance(12) {
+				// the same key twice in one snapshot DBI (a foreign or buggy writer): the versions are joined like any
+				// others, whichever comes first — also when the DBI is new here
+				e0 := d.Entries[r.Intn(len(d.Entries))]
+				e2 := e0
+				e2.Value = pick(r, [][]byte{[]byte("dupA"), []byte("dupB"), nil})
+				e2.Flags = 0
+				if e0.TimestampNano > 2000 {
+					e2.TimestampNano = e0.TimestampNano - 1500 // older: must lose wherever it stands
+				}
+				d.Entries = append(d.Entries, e2)
+			}
 			sds = append(sds, d)
 		}
 		cutoff := uint64(sy.VerifDeletedCutoff(time.Unix(0, int64(clock))))
@@ -608,7 +628,20 @@ func areaInstance(r *Rng, n int, dir string) (*AreaOut, error) {
 			// C04: with the sweeper configured, a deletion marker older than the load cutoff (now - retention + buffer,
 			// `now` being the time of THIS load) is never re-created on an instance that has no entry for the key;
 			// a younger marker is stored (markers travel)
-			if sweep {
+			// a snapshot DBI that names one key twice is merged entry by entry: what the second entry meets is no longer
+			// the state before the load (a stale marker dropped, then an older live version of the same key stored, is
+			// the order dependence C02_cutoff_order_refuted documents) — the per-snapshot oracles below skip those
+			snapHasDupKeys := false
+			for _, d := range seenDBIs {
+				seenK := map[string]bool{}
+				for _, e := range d.Entries {
+					if seenK[string(e.Key)] {
+						snapHasDupKeys = true
+					}
+					seenK[string(e.Key)] = true
+				}
+			}
+			if sweep && !snapHasDupKeys {
 				tgt := func(ds []dbiDump, name string) map[string][]byte {
 					m := map[string][]byte{}
 					if !native {
@@ -724,6 +757,8 @@ func areaInstance(r *Rng, n int, dir string) (*AreaOut, error) {
 			id2, lc2, err2 := sy.LoadOnce(ctx, env, "b", upd, header.TxnID(retID))
 			again, last3, _ := dumpEnv(env)
 			switch {
+			case snapHasDupKeys && sweep:
+				// see above: with the sweeper configured a re-merge may legitimately find something newer
 			case err2 != nil:
 				out.Oracle = append(out.Oracle, OracleFailure{"C10", "noop-load", "re-merging an already merged snapshot failed: " + err2.Error(), in})
 			case lc2:
